@@ -95,6 +95,9 @@ def _run_spec(spec):
         model = BlocksModel(**spec["blocks"])
     if spec.get("int_mass"):
         model.mass = np.ceil(model.mass).astype(np.int64)       # a user-defined model with an integer-dtype mass vector
+    if spec.get("precompute"):
+        # somebody evaluated the model OBJECT itself first (to read V(x0) and choose p0, as the suite's own model tests do)
+        model.compute(np.array(spec["x0"], dtype=np.float64))
     cls = hc.get_class(spec["cls"])
     x0 = np.array(spec["x0"])
     p0 = np.array(spec["p0"])
@@ -168,6 +171,38 @@ def oracle_drift(args):
 
 
 @safe_oracle
+def oracle_batch_energy(args):
+    """a batch whose generator varies the starting point (TrajGenNormal): every trajectory's logged potential is the energy of ITS
+    active state at ITS position (fresh model object, 1e-10), from the very first snapshot, and its total energy stays put
+    (hop-free: thresholds out of reach; drift bounded by the discretisation error of the slowest member)"""
+    import mudslide
+    model = mudslide.models.scattering_models[args["model"]]()
+    ns = int(args["samples"])
+    gen = mudslide.TrajGenNormal(np.array([args["x0"]]), np.array([args["k"]]), 0, sigma=float(args["sigma"]), seed=args["seed"],
+                                 seed_traj=int(args["seed"]))
+    b = mudslide.BatchedTraj(model, gen, getattr(mudslide, args["cls"]), samples=ns, dt=float(args["dt"]), max_steps=int(args["steps"]),
+                             zeta_list=[1e300] * (int(args["steps"]) + 5))
+    tm = b.compute()
+    problems, worst = [], 0.0
+    for j, tr in enumerate(tm.traces):
+        snaps = list(tr)
+        for s_ in (snaps[0], snaps[len(snaps) // 2], snaps[-1]):
+            fresh = mudslide.models.scattering_models[args["model"]]().update(np.array(s_["position"], dtype=np.float64))
+            want = float(np.asarray(fresh.hamiltonian())[s_["active"], s_["active"]])
+            if abs(want - s_["potential"]) > 1e-10 * (1 + abs(want)):
+                problems.append("trajectory %d, t=%r: logged potential %r, energy of state %d at its position %r is %r"
+                                % (j, s_["time"], s_["potential"], s_["active"], list(np.asarray(s_["position"])), want))
+                break
+        e = np.array([s_["energy"] for s_ in snaps])
+        ke = max(float(np.max([s_["kinetic"] for s_ in snaps])), 1e-300)
+        worst = max(worst, float(np.max(np.abs(e - e[0]))) / ke)
+        if float(np.max(np.abs(e - e[0]))) > 1e-3 * ke:
+            problems.append("trajectory %d: total energy moves by %.3g (kinetic energy %.3g) in a hop-free run" % (j, float(np.max(np.abs(e - e[0]))), ke))
+    return not problems, {"trajectories": len(tm.traces), "worst_relative_drift": worst, "problems": problems[:3]}, {"problems": []}, \
+        "; ".join(problems[:2]) or "ok"
+
+
+@safe_oracle
 def oracle_restart_energy(args):
     """a run stopped right after a step with an accepted hop, restarted from its log and continued: the total energy of the
     combined log stays where the uninterrupted run has it (no jump at the restart)"""
@@ -183,7 +218,7 @@ def oracle_restart_energy(args):
         "after the restart at snapshot %d the logged total energy differs from the uninterrupted run by %.3g (its own drift: %.3g)" % (n_before, dev, drift_u)
 
 
-ORACLES = {"restart_energy": oracle_restart_energy, "hop_energy": oracle_hop_energy, "run_hops": oracle_run_hops, "drift": oracle_drift}
+ORACLES = {"batch_energy": oracle_batch_energy, "restart_energy": oracle_restart_energy, "hop_energy": oracle_hop_energy, "run_hops": oracle_run_hops, "drift": oracle_drift}
 
 
 # ------------------------------------------------------------------------------------------------
@@ -332,6 +367,8 @@ def run(ctx):
         spec.pop("mass_hi")
         if j % 3 == 2:
             spec["int_mass"] = True
+        if j % 2 == 1:
+            spec["precompute"] = True
         spec["dt"] = float(rng.choice([1.0, 2.0, 4.0]))
         spec["p0"] = list(rng.normal(size=spec["n"]) * 8.0 + 3.0)
         ok, obs, req, text = oracle_drift(spec)
@@ -341,6 +378,15 @@ def run(ctx):
             ctx.monitor("max_drift_ratio", r_)
         if not ok:
             ctx.oracle_fail("energy-drift-order", "drift", spec, obs, req, text)
+    # batches whose members start at DIFFERENT points
+    for j in range(ctx.budget(2, 12)):
+        a = dict(model=["simple", "dual"][j % 2], cls=["TrajectorySH", "TrajectoryCum"][(j // 2) % 2], samples=4, x0=float(rng.uniform(-1.5, -0.5)),
+                 k=float(rng.uniform(15, 25)), sigma=float(rng.uniform(0.5, 2.0)), seed=int(rng.integers(1, 10 ** 6)), dt=float(rng.choice([1.0, 2.0])), steps=40)
+        ok, obs, req, text = oracle_batch_energy(a)
+        ctx.case(("batch-energy", a["model"], a["cls"]))
+        ctx.count("batch_energy_trajectories", int(obs.get("trajectories", 0)))
+        if not ok:
+            ctx.oracle_fail("batch-energy", "batch_energy", a, obs, req, text)
     # a single-surface run THROUGH a symmetry-allowed crossing of a truncated (AdiabaticModel_) problem: the continued state has
     # overlap exactly zero with its reference there; the surfaces are twice differentiable, so the drift still shrinks ~4x
     for j in range(ctx.budget(1, 6)):
